@@ -410,9 +410,12 @@ def c33(ck, F, tier):
     ck.rule("TRIPLE", "formulas, links and conditional-format ranges are displaced together", floor=12)
     ck.rule("LINK-DIFF", "link changes caused by user-model operations are captured for undo", floor=10)
     ck.rule("TRIPLE-cut", "cut/paste updates formulas, links and conditional formats that referenced the cut area", floor=3)
+    ck.rule("PCFG", "conditional-format formulas are rewritten with the parser in the configuration they are stored in", floor=12)
     guarded(ck, rs.triple, F)
     guarded(ck, rs.link_diff, F)
     guarded(ck, rs.triple_cut, F)
+    import rules_pcfg as rp
+    guarded(ck, rp.pcfg, F)
 
 
 def c31(ck, F, tier):
